@@ -37,7 +37,7 @@ def st_append_arg(draw, valid_only=False):
 
 @st.composite
 def st_array_op(draw, shape_rank, extra=()):
-    o = draw(st.sampled_from(['append', 'append', 'iterappend', 'set', 'trunc', 'trunc', 'mode', 'reopen'] + list(extra)))
+    o = draw(st.sampled_from(['append', 'append', 'iterappend', 'set', 'trunc', 'trunc', 'mode', 'reopen', 'ctx', 'copy'] + list(extra)))
     if o == 'append':
         return {'o': 'append', 'arg': draw(st_append_arg())}
     if o == 'iterappend':
@@ -58,7 +58,14 @@ def st_array_op(draw, shape_rank, extra=()):
     if o == 'meta':
         return {'o': 'meta', 'a': draw(st.sampled_from(['set', 'set', 'del', 'clear'])), 'k': draw(st.sampled_from(['a', 'b']))}
     if o == 'overwrite':
-        return {'o': 'overwrite', 'start': draw(st_start())}
+        return {'o': 'overwrite', 'start': draw(st_start()), 'over': draw(st.sampled_from(['same', 'same', 'ragged']))}
+    if o == 'copy':
+        return {'o': 'copy', 'chunklen': draw(st.sampled_from([None, 1, 2, 3]))}
+    if o == 'ctx':
+        inner = [draw(st.one_of(st.builds(lambda a: {'o': 'append', 'arg': a}, st_append_arg(valid_only=True)),
+                                st.just({'o': 'iterappend', 'chunks': [{'k': 'rows', 'n': 2, 'seed': 5}, {'k': 'zero', 'n': 1, 'seed': 6}], 'gen': True})))
+                 for _ in range(draw(st.integers(1, 3)))]
+        return {'o': 'ctx', 'ops': inner, 'via': draw(st.sampled_from(['open_array', 'iterchunks']))}
     raise ValueError(o)
 
 
@@ -230,13 +237,20 @@ class ArrayRun:
         self.kinds = []
 
     # -- creation
-    def create(self, start, overwrite=False):
+    def create(self, start, overwrite=False, over='same'):
         import darr
         dt = dt_of(start['dt'])
         shape = tuple(start['shape'])
         ref = gens.build_array(dt, shape, {'m': start.get('vals', 'raw'), 's': start['seed']})
         md = {'a': 1, 'nested': {'x': [1, 2.5, 'y']}} if start['meta'] else None
         kw = dict(overwrite=True) if overwrite else {}
+        if overwrite and over == 'ragged':
+            # the previous occupant of the path is a RaggedArray
+            import shutil
+            self.a = None
+            shutil.rmtree(self.path)
+            darr.asraggedarray(self.path, [[1, 2], [3]], dtype='int16', metadata={'old': 1})
+            self.out.cls('overwrite-over-ragged')
         if start['how'] == 'create':
             ref = np.full(shape, ref.ravel()[0] if ref.size else 0, dtype=dt)
             fillv = ref.ravel()[0] if ref.size else 0
@@ -260,7 +274,8 @@ class ArrayRun:
         out, a, m = self.out, self.a, self.m
         import darr
         if 'model' in self.oracles:
-            handles = [('live', a)]
+            # while an enclosing context holds the (fixed-shape) memory map open only a fresh handle can see new data
+            handles = [] if getattr(self, 'in_ctx', False) else [('live', a)]
             try:
                 handles.append(('fresh', darr.Array(self.path)))
             except Exception as e:
@@ -295,8 +310,9 @@ class ArrayRun:
                          f'step {self.stepno}: decoded {arr.dtype.str}{arr.shape} model {m.dtype.str}{m.shape}')
                 return False
             try:
-                api = a[:]
-                if np.dtype(a.dtype).str != arr.dtype.str or tuple(a.shape) != arr.shape or api.tobytes() != arr.tobytes():
+                src = darr.Array(self.path) if getattr(self, 'in_ctx', False) else a
+                api = src[:]
+                if np.dtype(src.dtype).str != arr.dtype.str or tuple(src.shape) != arr.shape or api.tobytes() != arr.tobytes():
                     out.viol('raw-decode-differs-from-api', tag,
                              f'step {self.stepno}: decoded {arr.dtype.str}{arr.shape} api {np.dtype(a.dtype).str}{tuple(a.shape)}')
                     return False
@@ -356,6 +372,8 @@ class ArrayRun:
         empty = 'empty' if m.size == 0 else 'nonempty'
         if o == 'append':
             arg = op['arg']
+            if getattr(self, 'in_ctx', False) and arg['k'] == 'scalar' and m.ndim > 1:
+                arg = dict(arg, k='rows')     # inside a context only valid appends are issued (a failed one closes the shared descriptor)
             x = build_append_operand(arg, m)
             tag = f"append:{arg['k']}:{empty}"
             try:
@@ -520,11 +538,47 @@ class ArrayRun:
                     if not self.meta:
                         self.out.cls('meta-deleted')
             return self.observe('meta:' + act)
+        if o == 'ctx':
+            if self.mode == 'r' or m.size == 0 and op['via'] == 'iterchunks':
+                return True
+            self.out.cls('ops-inside-open-context')
+            ok = True
+            self.in_ctx = True
+            try:
+                if op['via'] == 'open_array':
+                    with a.open_array():
+                        for inner in op['ops']:
+                            ok = ok and self.step(inner)
+                            if not ok:
+                                break
+                else:
+                    it = a.iterchunks(chunklen=1)
+                    next(it)
+                    for inner in op['ops']:
+                        ok = ok and self.step(inner)
+                        if not ok:
+                            break
+                    it.close()
+            finally:
+                self.in_ctx = False
+            return ok and self.observe('after-ctx')
+        if o == 'copy':
+            self.kinds.append('copy')
+            cpath = os.path.join(self.d, f'copy{self.stepno}.darr')
+            kw = {} if op.get('chunklen') is None else {'chunklen': op['chunklen']}
+            try:
+                c = a.copy(cpath, accessmode='r+', **kw)
+            except Exception as e:
+                self.out.viol('valid-call-raised', f'copy:{type(e).__name__}', f'step {self.stepno}: {type(e).__name__}: {e}')
+                return False
+            self.out.cls('copy')
+            self.a, self.path = c, cpath      # the history continues on the copy
+            return self.observe('copy')
         if o == 'overwrite':
             self.kinds.append('overwrite')
             self.out.cls('overwrite-recreate')
             try:
-                self.create(op['start'], overwrite=True)
+                self.create(op['start'], overwrite=True, over=op.get('over', 'same'))
             except Exception as e:
                 self.out.viol('valid-call-raised', f'overwrite:{type(e).__name__}', f'step {self.stepno}: {type(e).__name__}: {e}')
                 return False
